@@ -486,11 +486,17 @@ void scan_deps(const std::string& orig_portname, std::string cur_portname,
     };
 
     // this port and all parent ports can be enabled by another port, so check them all
+    bool is_parent = false; // cur_portname is a parent of the port we started at
     for(std::string::size_type last_slash;
         cur_portname.size() && (last_slash = cur_portname.find_last_of('/')) != std::string::npos;
-          cur_portname.resize(last_slash))
+          cur_portname.resize(last_slash), is_parent = true)
     {
-        const Port* port = ports.apropos(cur_portname.c_str());
+        // a parent is a sub-tree: look it up as "path/", so that apropos
+        // matches its port ("name/", "name#N/") and not a port whose name
+        // merely starts with the same characters
+        const Port* port = is_parent
+            ? ports.apropos((cur_portname + '/').c_str())
+            : ports.apropos(cur_portname.c_str());
         if(port)
         {
             const char* dep_types[3] = { "enabled by", "depends", "default depends" };
